@@ -32,6 +32,20 @@ example : holdsReq ⟨false, [.data [97, 10, 98], .err []]⟩ [.inp [97], .resp 
 example : holdsReq ⟨false, [.data [97, 10, 98], .err []]⟩ [.inp [97], .resp 200] = false := by decide
 example : holdsReq ⟨false, [.data [97, 10, 98]]⟩ [.inp [97], .resp 200] = false := by decide
 
+/-- the oracle of a whole case (several requests, sequential or concurrent): the model's answer
+    `qs.map serve` with one source id per request and as many distinct ids as requests that made
+    `In` calls satisfies `SpecC11.holds`. -/
+theorem http_holds_case (conc : Bool) (qs : List Req) :
+    holds conc qs (qs.map serve) true (withInput (qs.map serve)) = true := by
+  have h : allReqs qs (qs.map serve) = true := by
+    induction qs with
+    | nil => rfl
+    | cons q qs ih => simp [allReqs, http_holds, ih]
+  simp [holds, h]
+
+example : holds true [⟨false, [.data [97, 10]]⟩, ⟨false, [.data [98]]⟩] [[.inp [97], .resp 200], [.inp [98], .resp 200]] true 1 = false := by
+  decide
+
 /-- **lines, any read sequence**: when no read fails, the events are exactly the lines of the body
     the reads deliver — `\n`-separated, in order, a final non-empty unterminated line included, `\r`
     untouched — followed by the 200. -/
@@ -80,5 +94,41 @@ theorem respond_after_all_lines (q : Req) :
 example : serve ⟨false, [.data [97, 10, 98, 10, 99], .err [100, 10]]⟩ = [.inp [97], .inp [98], .resp 400] := by
   decide
 example : serve ⟨true, [.data [97, 10]]⟩ = [.resp 400] := by decide
+
+/-- **source ids are exclusive**: in every state the plugin can reach by any interleaving of
+    requests entering `processBulk`, reading and leaving it, two requests in flight never hold the
+    same source id (and an id on the free list is held by nobody).
+    Assumed: `getSourceID` / `putSourceID` are atomic (they run under `p.mu`). -/
+theorem source_ids_exclusive (s : Sys) (hr : TS.Reachable step? HttpConc.init s)
+    (r1 r2 : Nat) (l1 l2 : Live) (h1 : s.live r1 = some l1) (h2 : s.live r2 = some l2) (hne : r1 ≠ r2) :
+    l1.sid ≠ l2.sid ∧ l1.sid ∉ s.ids.free :=
+  ⟨fun e => hne ((BInv.reachable hr).excl r1 r2 l1 l2 h1 h2 e), ((BInv.reachable hr).liveId r1 l1 h1).2⟩
+
+/-- **requests are isolated**: whatever the other requests do in between (any schedule: any
+    `List Op`), the events the controller received for a finished request `r` are exactly the
+    result of running `r` alone on its own reads (`processBulk all`, i.e. by `http_lines` the lines
+    of its body), in order, all under one source id; nothing of another request is among them.
+    Assumed (the model makes it so): readBuff / eventBuff / locals belong to the request between
+    `sync.Pool.Get` and `Put`; a step of the read loop is atomic with respect to the log only in
+    that `In` calls of one request are ordered (they are made by one goroutine). -/
+theorem requests_isolated (s : Sys) (hr : TS.Reachable step? HttpConc.init s)
+    (r : Nat) (all : List Rd) (outs : List Bytes) (ok : Bool) (hd : s.done r = some (all, outs, ok)) :
+    (outs, ok) = processBulk all ∧
+    ∃ sid, s.log.filter (fun e => e.1 == r) = outs.map (fun b => (r, sid, b)) :=
+  (BInv.reachable hr).doneOk r all outs ok hd
+
+-- non-vacuity: two requests interleaved read by read on one plugin; both finish, with different
+-- ids while in flight, each with exactly its own lines; the log interleaves them
+def demoOps : List Op :=
+  [.start 0 [.data [97, 10, 98], .data [98, 10]], .start 1 [.data [120], .data [10, 121]],
+   .read 0, .read 1, .read 0, .read 1, .read 1, .read 0]
+
+example : (TS.run step? HttpConc.init demoOps).map (fun s => (s.done 0, s.done 1, s.log, s.ids.free)) =
+    some (some ([.data [97, 10, 98], .data [98, 10]], [[97], [98, 98]], true),
+          some ([.data [120], .data [10, 121]], [[120], [121]], true),
+          [(0, 0, [97]), (0, 0, [98, 98]), (1, 1, [120]), (1, 1, [121])], [1, 0]) := by
+  rfl
+example : ((TS.run step? HttpConc.init (demoOps.take 4)).map
+    (fun s => ((s.live 0).map (·.sid), (s.live 1).map (·.sid)))) = some (some 0, some 1) := by decide
 
 end FileD.PropsC11
